@@ -18,6 +18,7 @@ Proof. destruct o as [[]|]; reflexivity. Qed.
 Lemma dec_enum_np o : is_panic (dec_enum o) = false.
 Proof.
   destruct o as [[]|]; try reflexivity.
+  cbn [dec_enum]. destruct (is_uuid_atom (GArr l)); [reflexivity|].
   destruct l as [|a [|b [|c r]]]; try reflexivity. cbn.
   destruct (str_is a s_set); cbn; [|reflexivity]. destruct b; reflexivity.
 Qed.
@@ -78,6 +79,15 @@ Proof.
   unfold is_atomic_type. rewrite !orb_true_iff, !N.eqb_eq. tauto.
 Qed.
 
+(** the one non-scalar enum element: a uuid in its wire form *)
+Ltac uuid_atom_cases H :=
+  unfold wf_enum in H; cbn [forallb is_scalar orb andb] in H;
+  match type of H with
+  | context [is_uuid_atom (GArr ?l)] =>
+      destruct l as [|[] [|[] [|]]]; cbn in H; try discriminate;
+      rewrite ?andb_true_r in H; apply orb_prop in H as [H|H]; apply N.eqb_eq in H; subst
+  end.
+
 Theorem base_roundtrip b : wf_base b = true -> dec_base (enc_base b) = Ok b.
 Proof.
   destruct b as [ty en minR maxR minI maxI minL maxL rt ry]. unfold wf_base. cbn [wb_enum wb_type].
@@ -85,7 +95,7 @@ Proof.
   unfold enc_base, dec_base. cbn [wb_type wb_enum wb_minReal wb_maxReal wb_minInt wb_maxInt wb_minLen wb_maxLen wb_refTable wb_refType].
   destruct (atomic_type_cases ty Hat) as [->|[->|[->|[->| ->]]]];
     (destruct en as [[|e1 [|e2 er]]|]; try discriminate;
-      [destruct e1; try discriminate| |];
+      [destruct e1; try discriminate; try uuid_atom_cases Hen| |];
       destruct minR as [[? ?]|], maxR as [[? ?]|], minI, maxI, minL, maxL, rt, ry; reflexivity).
 Qed.
 
